@@ -1,6 +1,8 @@
 import A816.Model.Program
 import A816.Props.C18
 import A816.Proofs.ScanTotal
+import A816.Proofs.ParseFuel
+import A816.Model.OpsParse
 /-!
 # C15 — Every input terminates
 
@@ -25,7 +27,15 @@ Every Python `while` loop of the scanner is modelled with a fuel computed from t
   generation is structurally recursive on the nesting budget, loops run their evaluated count.
 
 The basic lemmas live in `Proofs/ScanBasic.lean` (namespace `ScanB`) and are restated here under their
-names.  Parser fuel sufficiency is not yet a theorem; it is exercised by the streams.
+names.
+
+* **`parse_terminates`** (whole parser, `Proofs/ParseFuel.lean`): for every token array, when no source file can
+  be included, `parse_initial` with `2·|tokens| + 6` fuel returns or raises a real exception — every loop and
+  every recursion of `parser_states.py` is bounded by the number of tokens left; `parse_decl_consumes` is the
+  progress fact behind it (a successful `parse_decl` consumed at least one token of the array), and
+  `parseSource_terminates` composes it with `scan_terminates` for a whole source text.  With includable files
+  the nesting of `.include` is bounded by the fuel only (a file that includes itself ends in Python's
+  `RecursionError`); that part stays with the streams.
 -/
 namespace A816.C15
 open A816 Scan ScanB
@@ -143,6 +153,58 @@ example : (scan ⟨["lda"], [], []⟩ .initial 0 "/* never closed".toList).error
 example : ((scan ⟨[], [], []⟩ .expression 0 "1 $ 2".toList).error.map Err.tag) = some "ScannerException" := by
   decide +kernel
 
+
+/-- **C15 (parser)**: for every token array and every parser configuration, with no includable source file,
+    `parse_initial` started anywhere in the array with `2·(tokens left) + 6` fuel never answers `outOfFuel`:
+    no loop or recursion of the parser runs more often than there are tokens left. -/
+theorem parse_terminates (cfg : ParseCfg) (toks : Array Tok) (fs : FS) (hfs : fs.text = []) (pos fuel : Nat)
+    (hf : 2 * (toks.size - pos) + 6 ≤ fuel) :
+    (parseProgram cfg fuel).run ⟨toks, pos, fs⟩ ≠ .error .outOfFuel :=
+  ((ParseFuel.all cfg toks fs hfs fuel).prog pos hf).no_fuel
+
+/-- a successful `parse_decl` leaves the token array alone and consumed at least one token that lies inside it
+    (what makes `while p.current().type != EOF: parse_decl(p)` and the block loop terminate) -/
+theorem parse_decl_consumes (cfg : ParseCfg) (toks : Array Tok) (fs : FS) (hfs : fs.text = []) (pos fuel : Nat)
+    (hf : 2 * (toks.size - pos) + 5 ≤ fuel) (a : Option Ast) (st' : PState)
+    (h : (parseDecl cfg fuel).run ⟨toks, pos, fs⟩ = .ok (a, st')) :
+    st'.toks = toks ∧ st'.fs = fs ∧ pos < st'.pos ∧ pos < toks.size := by
+  obtain ⟨p', rfl, h1, h2⟩ := ((ParseFuel.all cfg toks fs hfs fuel).decl pos hf).post h
+  exact ⟨rfl, rfl, h1, h2⟩
+
+/-- an expression, when one is parsed, consumed at least one token; the opcode and keyword parsers too -/
+theorem parse_expr_consumes (cfg : ParseCfg) (toks : Array Tok) (fs : FS) (hfs : fs.text = []) (pos fuel : Nat)
+    (hf : 2 * (toks.size - pos) + 2 ≤ fuel) (a : PExpr) (st' : PState)
+    (h : (parseExpr cfg fuel).run ⟨toks, pos, fs⟩ = .ok (a, st')) :
+    st'.toks = toks ∧ st'.fs = fs ∧ pos < st'.pos ∧ pos < toks.size := by
+  obtain ⟨p', rfl, h1, h2⟩ := ((ParseFuel.all cfg toks fs hfs fuel).expr pos hf).post h
+  exact ⟨rfl, rfl, h1, h2⟩
+
+/-- scanning and parsing a whole source text that cannot include other sources terminates -/
+theorem parseSource_terminates (bins : List (String × List Nat)) (src : String) :
+    Ops.parseSource ⟨[], bins⟩ src ≠ .error .outOfFuel := by
+  unfold Ops.parseSource
+  have hs := scan_terminates Ops.genScanCfg .initial 0 src.toList
+  generalize scan Ops.genScanCfg .initial 0 src.toList = r at hs
+  dsimp only
+  split
+  · rename_i e he
+    intro h
+    injection h with h
+    rw [h] at he
+    exact hs he
+  · have hp := parse_terminates Ops.genParseCfg r.toks ⟨[], bins⟩ rfl 0 (4 * (r.toks.size + 0) + 64) (by omega)
+    have h0 : (List.foldl (fun a (x : String × String) => a + x.2.length) 0 ([] : List (String × String))) = 0 := rfl
+    split
+    · intro h; cases h
+    · rename_i e he
+      intro h
+      injection h with h
+      rw [h] at he
+      exact hp he
+
+/-- non-vacuity: a deeply nested block and a long operator chain parse with the stated fuel -/
+example : ((Ops.parseSource ⟨[], []⟩ "{\n{\n{\n{\nlda #1+2*(3-(4))\n}\n}\n}\n}\n").toOption.map List.length) = some 1 := by
+  decide +kernel
 
 /-- code generation is total for every nesting budget: with budget 0 it stops with `RecursionError` -/
 theorem gen_budget_exhausted (env : Env) (a : Ast) (st : GenState) : (gen env 0 a).run st = .error .recursion := rfl
